@@ -290,6 +290,8 @@ class NamespaceMixin(object):
             ast = declast.check_decl(decl, namespace=self)
 
         name = ast.get_name()  # Local name.
+        if name is None:
+            raise RuntimeError("typedef does not name a type: " + decl)
         node = TypedefNode(name, parent=self, ast=ast)
         node.typemap = self.create_typedef_typemap(node, fields=kwargs.get("fields", None))
         self.typedefs.append(node)
@@ -1822,6 +1824,8 @@ class VariableNode(AstNode):
         if ast.params is not None:
             # 'void foo()' instead of 'void foo'
             raise RuntimeError("Arguments given to variable:", ast.gen_decl())
+        if ast.name is None:
+            raise RuntimeError("Variable declaration has no name: " + decl)
         self.ast = ast
         self.name = ast.name
 
